@@ -316,7 +316,8 @@ func (a Float) M__bool__() (Object, error) {
 }
 
 func (a Float) M__int__() (Object, error) {
-	if a >= IntMin && a <= IntMax {
+	// IntMax is not representable as a float64: it rounds up to 2**63, which no longer fits in an Int
+	if a >= IntMin && a < -IntMin {
 		return Int(a), nil
 	}
 	frac, exp := math.Frexp(float64(a))              // x = frac << exp; 0.5 <= abs(x) < 1
